@@ -42,6 +42,23 @@ impl Operator {
         matches!(self, Self::And | Self::Or)
     }
 
+    /// How tightly the operator binds its operands (a higher number binds tighter).
+    pub fn precedence(&self) -> u8 {
+        match self {
+            Self::Multiply | Self::Divide => 6,
+            Self::Modulo => 5,
+            Self::Plus | Self::Minus => 4,
+            Self::Less
+            | Self::LessOrEqual
+            | Self::Equal
+            | Self::GreaterOrEqual
+            | Self::Greater
+            | Self::NotEqual => 3,
+            Self::And => 2,
+            Self::Or => 1,
+        }
+    }
+
     pub fn is_plus_or_minus(&self) -> bool {
         matches!(self, Self::Plus | Self::Minus)
     }
